@@ -89,7 +89,10 @@ func (r *returnsRunner) execute(cmd *cobra.Command, args []string) error {
 	if err != nil {
 		return err
 	}
-	partition := r.Multiperiod.Partition(j.Period())
+	partition, err := r.Multiperiod.Partition(j.Period())
+	if err != nil {
+		return err
+	}
 	calculator := &performance.Calculator{
 		Context:         reg,
 		Valuation:       valuation,
